@@ -90,7 +90,8 @@ fn constructors(rep: &mut Report, x: u64, cls: &str, r: &mut Rng) {
     if canon && t.as_u64() != x {
         rep.violation("VirtAddr::new_truncate|disagrees-with-try_new-on-valid", ctx());
     }
-    // --- from_ptr
+    // --- from_ptr (the crate offers it on 64-bit targets only)
+    #[cfg(target_pointer_width = "64")]
     match catch(|| VirtAddr::from_ptr(x as *const u8)) {
         Ok(v) => {
             if !canon || v.as_u64() != x {
